@@ -224,6 +224,17 @@ def run_case(ctx, desc):
                     return None
                 pname = f"probe{pi}"
                 if (name_of(ci), pname) in probes[ti] and not uniq:
+                    # documented: a monitor that exists under that name is returned as it is (nothing new is created or registered,
+                    # whatever attribute the repeated call names) - the observation counts that follow judge "nothing registered"
+                    ctx.case(f"add_monitor_again/{tk}/{cells[ci][0]}")
+                    ctx.count("repeated_add_monitor_calls")
+                    have = trainers[ti].get_monitor(name_of(ci), pname)
+                    again = trainers[ti].add_monitor(name_of(ci), pname, attr, StateMonitor.partialconstructor(
+                        reducer=PassthroughReducer(1.0, duration=0.0, inclusive=True), as_prehook=False, train_update=True,
+                        eval_update=False, prepend=True), False, probe=attr)
+                    if have is None or again is not have or trainers[ti].get_monitor(name_of(ci), pname) is not have:
+                        return ctx.violation("add_monitor.existing_name_not_returned_as_is",
+                                             "add_monitor under an existing name (unique=False) did not return the existing monitor", rdesc)
                     return None
                 ctx.case(f"add_monitor/{tk}/{attr}/uniq{int(uniq)}/{cells[ci][0]}")
                 trainers[ti].add_monitor(name_of(ci), pname, attr, StateMonitor.partialconstructor(
